@@ -81,6 +81,11 @@ def child_env():
 
 
 # --------------------------------------------------------------------------- shard side
+def from_repo(exc):
+    """True when the deepest frame of exc's traceback that belongs to either side belongs to the code under test."""
+    return _blame(exc)[0] == 'repo'
+
+
 def _blame(exc):
     repo = os.path.realpath(os.environ.get('VERIF_REPO', '/repo')) + os.sep
     verif = os.path.realpath(VERIF) + os.sep
